@@ -4,11 +4,29 @@ import json, os
 VERIF = os.path.dirname(os.path.dirname(os.path.abspath(__file__)))
 
 # pid -> (technique, level text, level note, design ref)
+TB = "Trusted: Coq 8.16.1 kernel and vm_compute, extraction (ExtrOcamlBasic only), OCaml glue, C harness built from /repo's working tree, gcc/ASan/UBSan, python comparison. The theorems are about the hand-written model; the model is tied to the code by the correspondence run of this check (testing, exhaustive over small scopes / the model's control automaton, sampled beyond)."
 CLAIMED = {
- "C16": ("Coq proof (structural induction with the prevWasCr state; finite sweeps for hex helpers) on a hand-written model + extracted-model/implementation correspondence",
-         "Theorems about Model/Escape.v for all texts of any length: output alphabet, 3x/6x bound, unescape(escape x) = x (CRLF-normalised if requested) for all x over 1..255; the model is tied to src/UriEscape.c by running extracted model and implementation (char and wchar_t, plain and ASan) on exhaustive short strings, token sequences and random long strings, and the tokenising specification is evaluated on the implementation's own outputs.",
-         "Trusted: Coq kernel, extraction (ExtrOcamlBasic), OCaml glue, C harness, ASan. Partial in one respect: an actual write past the caller's buffer is runtime behaviour, observed with exact-size buffers under ASan and canaries; the cursor-level model carries the index discipline.",
-         "5 C16"),
+ "C01": ("Coq proof by reflection (derivative bisimulation of the parser model's control automaton with the RFC 3986 grammar, checked by vm_compute) + extracted-model/implementation correspondence over an automaton-derived conformance suite",
+         "Theorems for all strings of any code points: the model parser accepts iff the text matches URI-reference of RFC 3986 Appendix A; a rejected text is reported at the first dead character (anywhere inside the same bracketed literal when the dead character lies in one). The model is tied to src/UriParse.c by a conformance suite generated from the model's 971-state control automaton (state cover x every atom / every ASCII character x completions), grammar-directed and mutated URIs, the repository's test strings, all six entry points, char and wchar_t, plain and ASan; the RFC oracle (extracted matcher and error-window function) is evaluated on the implementation's own verdicts.",
+         TB, "5 C01"),
+ "C05": ("Coq proof (induction over the copy sequence with an explicit write log) + correspondence over every capacity",
+         "Theorems for every URI value and every capacity: chars-required = length of the text; capacity >= length+1 succeeds with length+1 reported; smaller capacities give the too-long code, charsWritten 0, an empty string iff capacity >= 1; every write lies inside [0, capacity). Tied to src/UriRecompose.c by running all capacities from -1 to length+2 on parsed and raw objects, guard zones and ASan exact-size buffers.",
+         TB + " Partial in one respect: a real write past the buffer is runtime behaviour, observed by guard zones / ASan.", "5 C05"),
+ "C11": ("Coq proof (uriEqualsUri characterised by a key function; injective on NUL-free texts) + all-pairs correspondence",
+         "Theorems: equality holds iff all components are identical (IP hosts by value, absent never equal to empty) for NUL-free texts; reflexive, symmetric, transitive for all values incl. NULL; identical components give identical text. Tied to src/UriCompare.c by all ordered pairs over a pool of raw objects differing in one component and parsed texts, plus pairs of library-produced objects compared with their recomposed texts. The converse text direction is checked on library-produced objects at run time (known finding D6).",
+         TB, "5 C11"),
+ "C15": ("Coq proof (refinement of an ideal allocator by simulation, induction over operation histories, size_t arithmetic mod 2^64) + history correspondence against the real uriCompleteMemoryManager",
+         "Theorems for every finite history of malloc/calloc/realloc/reallocarray/free with arbitrary size_t arguments and any backend failure plan: the decorated manager refines the ideal allocator; every backend block is released exactly once with the backend's own pointer; nothing stays allocated once the caller freed everything. Tied to src/UriMemory.c by random and enumerated histories over a logging, failure-injecting backend.",
+         TB, "5 C15"),
+ "C16": ("Coq proof (structural induction with the prevWasCr state; finite sweeps for hex helpers; cursor-level refinement for in-place unescaping) + exhaustive short-string correspondence",
+         "Theorems for all texts: output alphabet, 3x/6x bound, unescape(escape x) = x (CRLF-normalised if requested) for all x over 1..255, unescape never lengthens, equals the tokenising specification, and the cursor-level in-place loop refines the pure function without writing past the terminator. Tied to src/UriEscape.c by exhaustive short strings, token sequences and random long strings x all flags on char/wchar_t, plain/ASan.",
+         TB + " Partial in one respect: an actual write past the caller's buffer is runtime behaviour (ASan exact-size buffers, canaries).", "5 C16"),
+ "C17": ("Coq proof (join/split inverse by induction over the list; size arithmetic in Z with INT_MAX) + small-scope exhaustive correspondence incl. near-INT_MAX lists",
+         "Theorems for all lists over 1..255: dissect(compose l) = l without vanishing items; composed text is query-legal; no store at or beyond maxChars; chars-required is sufficient; sizes are refused rather than wrapped. Tied to src/UriQuery.c by lists of <= 3 items over key/value alphabets x all capacities x flags, custom manager with fault injection, lists whose sizes approach INT_MAX.",
+         TB, "5 C17"),
+ "C18": ("Coq proof (over the escaping lemmas) + exhaustive short-name correspondence",
+         "Theorems for all filenames over 1..255 in the stated classes (Unix; Windows drive-absolute, UNC with non-empty server, relative): round trip, URI-reference shape and documented forms, size bounds 7+3n+1 / 8+3n+1 / 3n+1, filename bound, short forms accepted. Tied to src/UriFile.c by exhaustive short names per class and random long names in exact-size buffers.",
+         TB, "5 C18"),
 }
 
 NOT_YET = {}
